@@ -1,6 +1,6 @@
 """C12 — fast mode reproduces the normal simulation when fills are unambiguous.
 
-proof:   Props/C12.v (the stretched candle of the fast matcher and the gap-normalised candle of the normal one have the same range; the fast
+proof:   Props/C12.v (the fast matcher's path candles are the normal simulator's gap-normalised minute candles; the fast
          simulator's higher-timeframe windows are the normal simulator's windows, from the regenerated read lists; one-candidate chunks fill
          the same order in the same minute in both matchers, for every reaction that keeps new orders outside the chunk)
 tie:     Model/FastMatch.fast_chunk vs the real _simulate_price_change_effect_multiple_candles with scripted reactions; Model/Match (C02/C08)
@@ -13,7 +13,7 @@ from . import common as C
 from .c02 import qq, cndq, gen_minute
 
 PID = 'C12'
-THEOREMS = ['C12_same_range', 'C12_same_candidates', 'C12_windows_coincide', 'C12_single_candidate_chunk']
+THEOREMS = ['C12_path_candles_are_the_normal_simulators', 'C12_windows_coincide', 'C12_single_candidate_chunk']
 
 
 def gen_chunk(rng):
@@ -196,7 +196,7 @@ def run(tier, seed, replay=None):
     from translator import gen_all
     ok, msgs = gen_all.generate()
     res.oblige('translator regenerated kernels, read lists, execution tests and chunk length from /repo', ok, '\n'.join(msgs))
-    C.standard_proof_step(res, 'Props.C12', ['C12_same_range', 'C12_same_candidates', 'C12_step_divides_every_timeframe', 'C12_windows_coincide', 'C12_no_window_inside_chunk',
+    C.standard_proof_step(res, 'Props.C12', ['C12_path_candles_are_the_normal_simulators', 'C12_normalisation_reads_only_the_previous_close', 'C12_step_divides_every_timeframe', 'C12_windows_coincide', 'C12_no_window_inside_chunk',
                                              'C12_executions_coincide', 'C12_no_execution_inside_chunk', 'C12_single_candidate_chunk'],
                           ['theories/Props/C12.vo', 'theories/Run/C12Run.vo'])
     rng = C.rng_for(seed, PID)
